@@ -417,6 +417,33 @@ CATALOGUE = [
       "        if ((t != l and s != l and t != k and s != k) and"),
     T("c17-ne-as-not-eq", "C17", CPYX, "            (A[s,l] == 0 and A[t,k] == 0) and",
       "            (not A[s,l] and not A[t,k]) and"),
+    # every 4-subset of the neighbours once (j<k<l<m), count times 4!
+    T("c03-subsets-5", "C03", CPYX, '                for k in range(degree_i):\n                    node2 = neighbors[k]\n                    if A[node1, node2] == 1:\n                        for l in range(degree_i):\n                            node3 = neighbors[l]\n                            if A[node1, node3] == 1 and A[node2, node3] == 1:\n                                for m in range(degree_i):\n', '                for k in range(j + 1, degree_i):\n                    node2 = neighbors[k]\n                    if A[node1, node2] == 1:\n                        for l in range(k + 1, degree_i):\n                            node3 = neighbors[l]\n                            if A[node1, node3] == 1 and A[node2, node3] == 1:\n                                for m in range(l + 1, degree_i):\n',
+      also=[(CPYX, '            local_cliquishness[i] = counter /\\\n                (<double> degree_i * (degree_i - 1) * (degree_i - 2) *\n', '            local_cliquishness[i] = 24 * counter /\\\n                (<double> degree_i * (degree_i - 1) * (degree_i - 2) *\n')]),
+    B("c03-subsets-5-wrong-start", "C03", CPYX, '                for k in range(degree_i):\n                    node2 = neighbors[k]\n                    if A[node1, node2] == 1:\n                        for l in range(degree_i):\n                            node3 = neighbors[l]\n                            if A[node1, node3] == 1 and A[node2, node3] == 1:\n                                for m in range(degree_i):\n', '                for k in range(j + 1, degree_i):\n                    node2 = neighbors[k]\n                    if A[node1, node2] == 1:\n                        for l in range(k + 1, degree_i):\n                            node3 = neighbors[l]\n                            if A[node1, node3] == 1 and A[node2, node3] == 1:\n                                for m in range(k + 1, degree_i):\n',
+      "_local_cliquishness_5thorder/range",
+      also=[(CPYX, '            local_cliquishness[i] = counter /\\\n                (<double> degree_i * (degree_i - 1) * (degree_i - 2) *\n', '            local_cliquishness[i] = 24 * counter /\\\n                (<double> degree_i * (degree_i - 1) * (degree_i - 2) *\n')]),
+    B("c03-subsets-5-wrong-factor", "C03", CPYX, '                for k in range(degree_i):\n                    node2 = neighbors[k]\n                    if A[node1, node2] == 1:\n                        for l in range(degree_i):\n                            node3 = neighbors[l]\n                            if A[node1, node3] == 1 and A[node2, node3] == 1:\n                                for m in range(degree_i):\n', '                for k in range(j + 1, degree_i):\n                    node2 = neighbors[k]\n                    if A[node1, node2] == 1:\n                        for l in range(k + 1, degree_i):\n                            node3 = neighbors[l]\n                            if A[node1, node3] == 1 and A[node2, node3] == 1:\n                                for m in range(l + 1, degree_i):\n',
+      "_local_cliquishness_5thorder/normaliser",
+      also=[(CPYX, '            local_cliquishness[i] = counter /\\\n                (<double> degree_i * (degree_i - 1) * (degree_i - 2) *\n', '            local_cliquishness[i] = 12 * counter /\\\n                (<double> degree_i * (degree_i - 1) * (degree_i - 2) *\n')]),
+    B("c12-accumulator-hoisted", "C12", CPYX,
+      "    for i in range(N_nodes):\n        for j in range(i+1):\n            expr = 0\n",
+      "    for i in range(N_nodes):\n        expr = 0\n        for j in range(i+1):\n",
+      "_calculate_euclidean_distance/accumulator-reset"),
+    B("c12-awc-node-weights", "C12", "src/pyunicorn/core/geo_network.py",
+      "        cos_lat = self.grid.cos_lat()\n\n        #  Calculate total dimensionless area of the sphere\n        norm = cos_lat.sum()\n\n        #  Normalize area weighted connectivity by the total dimensionless area\n        inawc",
+      "        cos_lat = self.node_weights\n\n        #  Calculate total dimensionless area of the sphere\n        norm = cos_lat.sum()\n\n        #  Normalize area weighted connectivity by the total dimensionless area\n        inawc",
+      "area-from-latitude"),
+    B("c03-indegree-axis", "C03", NET,
+      "            return self.link_attribute(key).sum(axis=0).T",
+      "            return self.link_attribute(key).sum(axis=1).T", "Network.indegree/axis"),
+    B("c03-laplacian-direction", "C03", NET,
+      "                if direction == \"out\":\n                    diagonal = self.outdegree()\n                elif direction == \"in\":\n                    diagonal = self.indegree()",
+      "                if direction == \"out\":\n                    diagonal = self.indegree()\n                elif direction == \"in\":\n                    diagonal = self.outdegree()",
+      "Network.laplacian/direction-"),
+    T("c03-laplacian-ifexp", "C03", NET,
+      "                if direction == \"out\":\n                    diagonal = self.outdegree()\n                elif direction == \"in\":\n                    diagonal = self.indegree()\n                else:\n                    raise ValueError('direction must be \"in\" or \"out\".')",
+      "                if direction not in (\"in\", \"out\"):\n                    raise ValueError('direction must be \"in\" or \"out\".')\n                axis = 0 if direction == \"in\" else 1\n                diagonal = np.asarray(self.adjacency).sum(axis=axis)"),
     T("c03-truthiness", "C03", CPYX, "if A[node2, node3] == 1 and A[node3, node1] == 1:",
       "if A[node2, node3] and A[node3, node1]:"),
     T("c01-cache-state-local", "C01", NET, "        return (self.directed, self._mut_A,)",
